@@ -62,11 +62,24 @@ func muxStructFields(n *types.Named, pred func(v *types.Var) bool) []*types.Var 
 		return nil
 	}
 	var out []*types.Var
-	for i := 0; i < st.NumFields(); i++ {
-		if pred(st.Field(i)) {
-			out = append(out, st.Field(i))
+	var walk func(st *types.Struct, depth int)
+	walk = func(st *types.Struct, depth int) {
+		for i := 0; i < st.NumFields(); i++ {
+			f := st.Field(i)
+			if pred(f) {
+				out = append(out, f)
+			}
+			// fields promoted from an embedded struct
+			if f.Embedded() && depth < 2 {
+				if en := muxDerefNamed(f.Type()); en != nil {
+					if est, ok := en.Underlying().(*types.Struct); ok {
+						walk(est, depth+1)
+					}
+				}
+			}
 		}
 	}
+	walk(st, 0)
 	return out
 }
 
@@ -160,8 +173,12 @@ func muxRolesOf(c *core.Ctx, rule string) *muxRoles {
 	ro.instFilterF, ro.ruleFilterF, ro.pathFilterF = muxOneField(ro.instT, "ipFilter", isFilter), muxOneField(ro.ruleT, "ipFilter", isFilter), muxOneField(ro.pathT, "ipFilter", isFilter)
 	ro.instChainF, ro.ruleChainF, ro.pathChainF = muxOneField(ro.instT, "ipFilterChain", isChain), muxOneField(ro.ruleT, "ipFilterChain", isChain), muxOneField(ro.pathT, "ipFilterChain", isChain)
 	ro.cacheF = muxOneField(ro.instT, "cache", func(v *types.Var) bool {
+		if muxIsLRU(v.Type()) {
+			return true
+		}
+		// a same-package wrapper type around an lru cache
 		n := muxDerefNamed(v.Type())
-		return n != nil && n.Obj().Pkg() != nil && strings.HasSuffix(n.Obj().Pkg().Path(), "hashicorp/golang-lru")
+		return n != nil && n.Obj().Pkg() == pkg.Types && len(muxStructFields(n, func(w *types.Var) bool { return muxIsLRU(w.Type()) })) > 0
 	})
 	for what, v := range map[string]*types.Var{"route.code": ro.codeF, "route.path": ro.rpathF, "instance.rules": ro.rulesF, "rule.paths": ro.pathsF, "path.headers": ro.headersF,
 		"instance filter": ro.instFilterF, "rule filter": ro.ruleFilterF, "path filter": ro.pathFilterF, "path filter chain": ro.pathChainF, "instance filter chain": ro.instChainF} {
@@ -176,6 +193,12 @@ func muxRolesOf(c *core.Ctx, rule string) *muxRoles {
 		ro.limitF = muxFieldInitFrom(c, ro.pathT, muxOneField(pt, "ClientMaxBodySize", func(v *types.Var) bool { return v.Name() == "ClientMaxBodySize" }))
 	}
 	return ro
+}
+
+// muxIsLRU: t is (a pointer to) a cache type of hashicorp/golang-lru.
+func muxIsLRU(t types.Type) bool {
+	n := muxDerefNamed(t)
+	return n != nil && n.Obj().Pkg() != nil && strings.HasSuffix(n.Obj().Pkg().Path(), "hashicorp/golang-lru")
 }
 
 func muxNamedTypeOpt(pkg *types.Package, name string) *types.Named {
@@ -656,19 +679,7 @@ func (vf *muxFlow) flatRec(e ast.Expr, seen map[types.Object]bool, depth int) []
 			if !ok || s.Kind() != types.FieldVal {
 				return []muxFlatVal{{expr: e}}
 			}
-			var out []muxFlatVal
-			for _, v := range vf.flatRec(x.X, seen, depth+1) {
-				if v.root == nil {
-					if v.expr != nil && (vf.info.Types[v.expr].IsNil() || (v.zero && muxRefType(vf.info.TypeOf(v.expr)))) {
-						continue // a nil base is never selected from
-					}
-					out = append(out, muxFlatVal{expr: e})
-					continue
-				}
-				nf := append(append([]*types.Var{}, v.fields...), fld)
-				out = append(out, muxFlatVal{root: v.root, fields: nf})
-			}
-			return out
+			return vf.selectFrom(vf.flatRec(x.X, seen, depth+1), fld, e, seen, depth)
 		}
 		// qualified identifier
 		if v, ok := vf.info.Uses[x.Sel].(*types.Var); ok && v.Pkg() != nil && v.Parent() == v.Pkg().Scope() {
@@ -676,6 +687,14 @@ func (vf *muxFlow) flatRec(e ast.Expr, seen map[types.Object]bool, depth int) []
 		}
 	case *ast.StarExpr:
 		return vf.flatRec(x.X, seen, depth+1)
+	case *ast.UnaryExpr:
+		// &x denotes the same object as x for the purposes of following values (not &T{..})
+		if x.Op == token.AND && muxLitOf(x) == nil {
+			switch ast.Unparen(x.X).(type) {
+			case *ast.Ident, *ast.SelectorExpr:
+				return vf.flatRec(x.X, seen, depth+1)
+			}
+		}
 	case *ast.CallExpr:
 		if tv, ok := vf.info.Types[x.Fun]; ok && tv.IsType() && len(x.Args) == 1 {
 			return vf.flatRec(x.Args[0], seen, depth+1)
@@ -683,6 +702,76 @@ func (vf *muxFlow) flatRec(e ast.Expr, seen map[types.Object]bool, depth int) []
 		return vf.flatCall(x, 0, seen, depth+1)
 	}
 	return []muxFlatVal{{expr: e}}
+}
+
+// selectFrom selects field fld from the given base values: an access path is extended, a
+// composite literal yields the value given for the field (also through the literal of an embedded
+// struct), a nil base is dropped.
+func (vf *muxFlow) selectFrom(bases []muxFlatVal, fld *types.Var, e ast.Expr, seen map[types.Object]bool, depth int) []muxFlatVal {
+	var out []muxFlatVal
+	for _, v := range bases {
+		if v.root != nil {
+			nf := append(append([]*types.Var{}, v.fields...), fld)
+			out = append(out, muxFlatVal{root: v.root, fields: nf})
+			continue
+		}
+		if v.expr != nil && (vf.info.Types[v.expr].IsNil() || (v.zero && muxRefType(vf.info.TypeOf(v.expr)))) {
+			continue // a nil base is never selected from
+		}
+		if cl := muxLitOf(v.expr); cl != nil && depth < 10 {
+			found := false
+			for _, el := range cl.Elts {
+				kv, ok := el.(*ast.KeyValueExpr)
+				if !ok {
+					continue
+				}
+				k, _ := kv.Key.(*ast.Ident)
+				if k == nil {
+					continue
+				}
+				if k.Name == fld.Name() {
+					out = append(out, vf.flatRec(kv.Value, seen, depth+1)...)
+					found = true
+					break
+				}
+			}
+			if !found {
+				// through the value given for an embedded struct
+				if tv, ok := vf.info.Types[cl]; ok {
+					if st, ok := tv.Type.Underlying().(*types.Struct); ok {
+						for _, el := range cl.Elts {
+							kv, ok := el.(*ast.KeyValueExpr)
+							if !ok {
+								continue
+							}
+							k, _ := kv.Key.(*ast.Ident)
+							for i := 0; k != nil && i < st.NumFields(); i++ {
+								if st.Field(i).Name() == k.Name && st.Field(i).Embedded() {
+									if en := muxDerefNamed(st.Field(i).Type()); en != nil && len(muxStructFields(en, func(w *types.Var) bool { return w == fld })) > 0 {
+										out = append(out, vf.selectFrom(vf.flatRec(kv.Value, seen, depth+1), fld, e, seen, depth+1)...)
+										found = true
+									}
+								}
+							}
+						}
+					}
+				}
+			}
+			if found {
+				continue
+			}
+		}
+		out = append(out, muxFlatVal{expr: e})
+	}
+	return out
+}
+
+// muxLitOf is litOf for the value-flow code (a composite literal, possibly behind &).
+func muxLitOf(e ast.Expr) *ast.CompositeLit {
+	if e == nil {
+		return nil
+	}
+	return litOf(e)
 }
 
 // flatCall: the origins of result idx of a call to a function of the set.
@@ -1002,10 +1091,13 @@ type searchInfo struct {
 	holders                                        map[types.Object]bool // variables assigned from the cache lookup
 	cached                                         map[types.Object]bool // variables that may hold the cached route
 	chainAllow                                     []*ast.CallExpr
-	hdrAtoms                                       []muxHdrAtom // forms of "the path has no header conditions"
+	chainWrap                                      []*ast.CallExpr     // calls of a nil-safe wrapper around chain.Allow
+	filterNil                                      map[string][]string // level -> keys of "the level's own filter is nil"
+	hdrAtoms                                       []muxHdrAtom        // forms of "the path has no header conditions"
 
 	routeCodes map[types.Object]string // package-level route vars -> status constant value
 
+	pathLit   *muxSrc      // tracks the route variables that hold a fresh success route
 	zeroFlags []*types.Var // bool fields of a state struct built empty by the search (see findZeroFlags)
 }
 
@@ -1042,7 +1134,7 @@ func (s *searchInfo) allowed(st *flow.State, level string) flow.Val {
 		if v := st.Get(s.key(a.call)); v != flow.Unknown {
 			return v
 		}
-		if a.direct && st.Is(s.f.NilKey(a.filter), flow.True) {
+		if a.direct && a.filter != nil && st.Is(s.f.NilKey(a.filter), flow.True) {
 			return flow.True
 		}
 	}
@@ -1060,8 +1152,8 @@ func (s *searchInfo) noHeaders(st *flow.State) bool {
 }
 
 func (s *searchInfo) nilFilterKnown(st *flow.State, level string) bool {
-	for _, a := range s.allow[level] {
-		if st.Is(s.f.NilKey(a.filter), flow.True) {
+	for _, k := range s.filterNil[level] {
+		if st.Is(k, flow.True) {
 			return true
 		}
 	}
@@ -1171,18 +1263,16 @@ func muxOwnCalls(g *flow.Func, pred func(call *ast.CallExpr) bool) bool {
 	return false
 }
 
-// cacheMethodCall reports whether call invokes method name on the instance's cache field.
+// cacheMethodCall reports whether call invokes method name (Get / Add) of an lru cache: the
+// receiver's static type is a golang-lru cache type, wherever the cache is kept (a field of the
+// instance, a local it was read into, a field of a wrapper type).
 func (ro *muxRoles) cacheMethodCall(info *types.Info, call *ast.CallExpr, name string) bool {
 	sel, ok := ast.Unparen(call.Fun).(*ast.SelectorExpr)
-	if !ok || sel.Sel.Name != name || ro.cacheF == nil {
+	if !ok || sel.Sel.Name != name {
 		return false
 	}
-	x, ok := ast.Unparen(sel.X).(*ast.SelectorExpr)
-	if !ok {
-		return false
-	}
-	s := info.Selections[x]
-	return s != nil && s.Obj() == ro.cacheF
+	tv, ok := info.Types[sel.X]
+	return ok && tv.Type != nil && muxIsLRU(tv.Type)
 }
 
 // muxRequestMethodUsed reports whether the reach of g uses (calls, or takes as a method value) one
@@ -1253,8 +1343,14 @@ func analyzeSearch(c *core.Ctx, rule string) *searchInfo {
 				c.Errorf("%s: anchor: cannot tell which request attribute the matcher %s tests", rule, fo.Name())
 				return nil
 			}
-		case boolRes && rn == nil && sig.Params().Len() == 2 && muxIsPtrTo(sig.Params().At(0).Type(), ro.filterT):
-			kind[fo] = "allow"
+		case boolRes && muxReachCalls(g, 2, func(h *flow.Func, call *ast.CallExpr) bool {
+			return calleeIs(h, call, "(*pkg/util/ipfilter.IPFilters).Allow")
+		}):
+			kind[fo] = "chain" // a wrapper around chain.Allow (nil-safe test of a filter chain)
+		case boolRes && muxReachCalls(g, 2, func(h *flow.Func, call *ast.CallExpr) bool {
+			return calleeIs(h, call, "(*pkg/util/ipfilter.IPFilter).Allow")
+		}):
+			kind[fo] = "allow" // allowIP(filter, ip) or a method such as guard.allowsSelf(ip)
 		case muxOwnCalls(g, func(call *ast.CallExpr) bool { return ro.cacheMethodCall(info, call, "Get") }):
 			kind[fo] = "get"
 		case muxOwnCalls(g, func(call *ast.CallExpr) bool { return ro.cacheMethodCall(info, call, "Add") }):
@@ -1262,6 +1358,29 @@ func analyzeSearch(c *core.Ctx, rule string) *searchInfo {
 		}
 		if kind[fo] != "" {
 			opaque[fo] = true
+		}
+	}
+	// a filter wrapper is modelled by its outcome only if its body is what the model assumes
+	// (true for a nil filter / chain, otherwise the filter's verdict, possibly through another
+	// accepted wrapper); else it is interpreted in place like any helper
+	sound := map[types.Object]string{}
+	for changed := true; changed; {
+		changed = false
+		for _, g := range reach(f, 4)[1:] {
+			fo := muxFuncObj(g)
+			if fo == nil || sound[fo] != "" || (kind[fo] != "allow" && kind[fo] != "chain") {
+				continue
+			}
+			if muxWrapperSound(c, g, sound) {
+				sound[fo] = kind[fo]
+				changed = true
+			}
+		}
+	}
+	for fo, k := range kind {
+		if (k == "allow" || k == "chain") && sound[fo] == "" {
+			delete(kind, fo)
+			delete(opaque, fo)
 		}
 	}
 	s.fns = muxReach(f, 4, opaque)
@@ -1307,9 +1426,26 @@ func analyzeSearch(c *core.Ctx, rule string) *searchInfo {
 			case "headers":
 				s.headerMatch = append(s.headerMatch, call)
 			case "allow":
-				if lv := s.levelOf(call.Args[0]); lv != "" {
-					s.allow[lv] = append(s.allow[lv], muxAllowSite{call: call, filter: call.Args[0]})
+				// the operand that carries the filter: an argument of type *IPFilter, else the receiver
+				var operand ast.Expr
+				for _, a := range call.Args {
+					if tv, ok := info.Types[a]; ok && muxIsPtrTo(tv.Type, ro.filterT) {
+						operand = a
+					}
 				}
+				site := muxAllowSite{call: call, filter: operand}
+				if operand == nil {
+					if sel, ok := ast.Unparen(call.Fun).(*ast.SelectorExpr); ok && info.Selections[sel] != nil {
+						operand = sel.X
+					}
+				}
+				if operand != nil {
+					if lv := s.levelOf(operand); lv != "" {
+						s.allow[lv] = append(s.allow[lv], site)
+					}
+				}
+			case "chain":
+				s.chainWrap = append(s.chainWrap, call)
 			case "get":
 				s.gets = append(s.gets, call)
 			case "put":
@@ -1336,6 +1472,22 @@ func analyzeSearch(c *core.Ctx, rule string) *searchInfo {
 				}
 			}
 		}
+	}
+	// "the own filter of the level is nil": every selection of a *IPFilter of that level
+	s.filterNil = map[string][]string{}
+	for _, g := range s.fns {
+		ast.Inspect(g.Body, func(n ast.Node) bool {
+			sel, ok := n.(*ast.SelectorExpr)
+			if !ok {
+				return true
+			}
+			if tv, ok := info.Types[sel]; ok && tv.Type != nil && muxIsPtrTo(tv.Type, ro.filterT) {
+				if lv := s.levelOf(sel); lv != "" {
+					s.filterNil[lv] = append(s.filterNil[lv], f.NilKey(sel))
+				}
+			}
+			return true
+		})
 	}
 	// holders of the lookup's result, and everything that may alias them
 	for _, g := range s.fns {
@@ -1404,7 +1556,15 @@ func analyzeSearch(c *core.Ctx, rule string) *searchInfo {
 			matcherCall[call] = true
 		}
 	}
-	res := muxAnalyzeInl(c, f, flow.Config{
+	// which route variables currently hold a fresh success route for the current path: followed
+	// through assignments, parameters and results of helpers interpreted in place
+	s.pathLit = newMuxSrc(f, s.fns, "pl:", func(e ast.Expr) flow.Val {
+		if s.isPathLit(e) {
+			return flow.True
+		}
+		return flow.Unknown
+	}, inlineSamePkg(f, muxObjList(opaque)...))
+	res := muxAnalyzeInl(c, f, s.pathLit.config(flow.Config{
 		NoHavoc: true,
 		OnCall: func(st *flow.State, call *ast.CallExpr, callee types.Object, deferred bool) {
 			// a matcher reads the fields of its receiver first thing: where its call has returned,
@@ -1416,20 +1576,6 @@ func analyzeSearch(c *core.Ctx, rule string) *searchInfo {
 			}
 		},
 		OnNode: func(st *flow.State, n ast.Node) {
-			// a route variable that currently holds a fresh success route for the current path
-			if as, ok := n.(*ast.AssignStmt); ok && len(as.Lhs) == len(as.Rhs) {
-				for i, l := range as.Lhs {
-					if id := muxIdentOf(l); id != nil && id.Name != "_" {
-						if v, ok := s.vf.obj(id).(*types.Var); ok && muxIsPtrTo(v.Type(), ro.routeT) {
-							if s.isPathLit(as.Rhs[i]) {
-								st.Set("ev:pathlit:"+f.Render(id), flow.True)
-							} else {
-								st.Set("ev:pathlit:"+f.Render(id), flow.Unknown)
-							}
-						}
-					}
-				}
-			}
 			if as, ok := n.(*ast.AssignStmt); ok && len(s.zeroFlags) > 0 {
 				for _, l := range as.Lhs {
 					if sel, ok := ast.Unparen(l).(*ast.SelectorExpr); ok {
@@ -1438,7 +1584,15 @@ func analyzeSearch(c *core.Ctx, rule string) *searchInfo {
 								if sl.Obj() != zf {
 									continue
 								}
-								// the flag's value is tracked per field (there is one state struct per search)
+								// the flag's value is tracked per field (there is one state struct per search);
+								// what the engine knows about the flag under other spellings of the struct
+								// (the caller's name for it while a helper assigns through its parameter)
+								// is stale from here on
+								for _, fact := range st.Facts() {
+									if (strings.HasPrefix(fact, "v:") || strings.HasPrefix(fact, "expr:")) && strings.HasSuffix(fact[:len(fact)-2], "."+zf.Name()) {
+										st.Set(fact[:len(fact)-2], flow.Unknown)
+									}
+								}
 								st.Set("ev:flag:"+zf.Name(), flow.Unknown)
 								st.Set("ev:flagany:"+zf.Name(), flow.True)
 								if len(as.Lhs) == len(as.Rhs) {
@@ -1523,7 +1677,7 @@ func analyzeSearch(c *core.Ctx, rule string) *searchInfo {
 				st.Set(evHdrMis, flow.True)
 			}
 		},
-	}, muxObjList(opaque)...)
+	}), muxObjList(opaque)...)
 	if res == nil {
 		return nil
 	}
@@ -1565,9 +1719,24 @@ func (s *searchInfo) findZeroFlags(c *core.Ctx) []*types.Var {
 	info := s.f.Info
 	cands := map[*types.Var]bool{}
 	bad := map[*types.Var]bool{}
-	lits := map[*ast.CompositeLit]bool{}
-	litOK := func(e ast.Expr, fld *types.Var) bool {
-		cl := litOf(e)
+	sites := map[ast.Node]bool{} // creation sites: the composite literal, or the identifier of `var st T`
+	created := func(v muxFlatVal, fld *types.Var) bool {
+		if v.root != nil || v.expr == nil {
+			return false
+		}
+		if v.zero {
+			// `var st searchState`: all fields zero
+			if id := muxIdentOf(v.expr); id != nil {
+				if def := s.vf.ident[s.vf.obj(id)]; def != nil {
+					if _, isStruct := s.vf.obj(id).Type().Underlying().(*types.Struct); isStruct {
+						sites[def] = true
+						return true
+					}
+				}
+			}
+			return false
+		}
+		cl := litOf(v.expr)
 		if cl == nil {
 			return false
 		}
@@ -1580,7 +1749,7 @@ func (s *searchInfo) findZeroFlags(c *core.Ctx) []*types.Var {
 				return false
 			}
 		}
-		lits[cl] = true
+		sites[cl] = true
 		return true
 	}
 	for _, g := range s.fns {
@@ -1603,7 +1772,7 @@ func (s *searchInfo) findZeroFlags(c *core.Ctx) []*types.Var {
 				bad[fld] = true
 			}
 			for _, v := range vs {
-				if v.root != nil || v.expr == nil || !litOK(v.expr, fld) {
+				if !created(v, fld) {
 					bad[fld] = true
 				}
 			}
@@ -1613,18 +1782,18 @@ func (s *searchInfo) findZeroFlags(c *core.Ctx) []*types.Var {
 	if len(cands) == 0 {
 		return nil
 	}
-	// one literal, executed once per search
-	if len(lits) != 1 {
+	// one creation site, executed once per search
+	if len(sites) != 1 {
 		return nil
 	}
-	for cl := range lits {
+	for site := range sites {
 		for _, g := range s.fns {
-			if contains(g.Body, cl) && len(enclosingLoops(g.Body, cl)) > 0 {
+			if contains(g.Body, site) && len(enclosingLoops(g.Body, site)) > 0 {
 				return nil
 			}
 		}
 	}
-	// address taken anywhere in the package?
+	// address of a flag taken anywhere in the package?
 	for _, file := range s.f.Pkg.Syntax {
 		ast.Inspect(file, func(n ast.Node) bool {
 			if ue, ok := n.(*ast.UnaryExpr); ok && ue.Op == token.AND {
@@ -1678,23 +1847,35 @@ func muxObjList(m map[types.Object]bool) []types.Object {
 	return out
 }
 
-// levelOf classifies an IP filter expression by the level whose filter field it selects.
+// levelOf classifies an expression that denotes a level's IP filter (x.ipFilter) or the level
+// itself (the receiver of x.allowsSelf(ip)) by the type it hangs off: the instance, a rule or a
+// path — also when the filter fields live in a struct embedded in the three types.
 func (s *searchInfo) levelOf(e ast.Expr) string {
-	vs := s.vf.flat(e)
+	byType := func(t types.Type) string {
+		switch n := muxDerefNamed(t); {
+		case muxSameNamed(n, s.ro.instT):
+			return "server"
+		case muxSameNamed(n, s.ro.ruleT):
+			return "rule"
+		case muxSameNamed(n, s.ro.pathT):
+			return "path"
+		}
+		return ""
+	}
 	lv := ""
+	vs := s.vf.flat(e)
 	for _, v := range vs {
-		var l string
-		switch v.last() {
-		case s.ro.instFilterF:
-			l = "server"
-		case s.ro.ruleFilterF:
-			l = "rule"
-		case s.ro.pathFilterF:
-			l = "path"
-		default:
+		if v.root == nil {
 			return ""
 		}
-		if lv != "" && lv != l {
+		l := ""
+		for i := len(v.fields) - 1; i >= 0 && l == ""; i-- {
+			l = byType(v.fields[i].Type())
+		}
+		if l == "" {
+			l = byType(v.root.Type())
+		}
+		if l == "" || (lv != "" && lv != l) {
 			return ""
 		}
 		lv = l
@@ -1845,7 +2026,7 @@ func (s *searchInfo) putKindIn(st *flow.State, put muxPutSite) string {
 	if k := s.routeExprKind(put.val, false); k != "" {
 		return k
 	}
-	if id := muxIdentOf(put.val); id != nil && st.Is("ev:pathlit:"+s.f.Render(id), flow.True) {
+	if id := muxIdentOf(put.val); id != nil && s.pathLit != nil && s.pathLit.get(st, id) == flow.True {
 		return "path"
 	}
 	// a variable known (in this state) to equal one of the package-level failure routes
@@ -1904,7 +2085,7 @@ func (s *searchInfo) exitKind(ex *flow.Exit) string {
 	if k := s.routeExprKind(e, ex.State.Is(evHit, flow.True)); k != "" {
 		return k
 	}
-	if id := muxIdentOf(e); id != nil && ex.State.Is("ev:pathlit:"+s.f.Render(id), flow.True) {
+	if id := muxIdentOf(e); id != nil && s.pathLit != nil && s.pathLit.get(ex.State, id) == flow.True {
 		return "path"
 	}
 	return ""
@@ -1928,6 +2109,17 @@ func (s *searchInfo) cachedCodeZero(st *flow.State) flow.Val {
 // chainPassed reports whether st has re-validated the cached path's filter chain: chain.Allow
 // returned true, or the chain is nil.
 func (s *searchInfo) chainPassed(st *flow.State) (passed, denied bool) {
+	for _, cw := range s.chainWrap {
+		if !s.chainWrapOfCached(cw) {
+			continue
+		}
+		switch st.Get(s.f.CallKey(cw)) {
+		case flow.True:
+			passed = true
+		case flow.False:
+			denied = true
+		}
+	}
 	for _, ca := range s.chainAllow {
 		if !s.chainOfCached(ca) {
 			continue
@@ -1960,14 +2152,42 @@ func (s *searchInfo) chainOfCached(ca *ast.CallExpr) bool {
 	if !ok {
 		return true
 	}
-	resolvable := false
-	for _, v := range s.vf.flat(sel.X) {
+	vs := s.vf.flat(sel.X)
+	for _, v := range vs {
 		if v.root == nil {
-			continue
+			return true // an origin that cannot be followed (e.g. the lookup call itself)
 		}
-		resolvable = true
-		if v.isPath(func(o types.Object) bool { return s.cached[o] }, s.ro.rpathF, s.ro.pathChainF) {
+		if s.cached[v.root] && len(v.fields) >= 2 && v.fields[0] == s.ro.rpathF && v.fields[len(v.fields)-1] == s.ro.pathChainF {
 			return true
+		}
+	}
+	return len(vs) == 0
+}
+
+// chainWrapOfCached: the wrapper around chain.Allow is applied to the cached route's path (or to
+// its chain); unresolvable operands are given the benefit of the doubt.
+func (s *searchInfo) chainWrapOfCached(cw *ast.CallExpr) bool {
+	var operands []ast.Expr
+	if sel, ok := ast.Unparen(cw.Fun).(*ast.SelectorExpr); ok && s.f.Info.Selections[sel] != nil {
+		operands = append(operands, sel.X)
+	}
+	operands = append(operands, cw.Args...)
+	resolvable := false
+	for _, op := range operands {
+		for _, v := range s.vf.flat(op) {
+			if v.root == nil {
+				if tv, ok := s.f.Info.Types[op]; ok && tv.Type != nil && muxDerefNamed(tv.Type) != nil && !types.Identical(tv.Type, types.Typ[types.String]) {
+					return true // an origin that cannot be followed
+				}
+				continue
+			}
+			if !muxIsPtrTo(v.root.Type(), s.ro.routeT) {
+				continue
+			}
+			resolvable = true
+			if s.cached[v.root] && len(v.fields) >= 1 && v.fields[0] == s.ro.rpathF {
+				return true
+			}
 		}
 	}
 	return !resolvable
@@ -1984,251 +2204,82 @@ func (s *searchInfo) nilFactOfCached(fact string) bool {
 
 // ---------------------------------------------------------------------------------------
 // muxAnalyzeInl runs the engine with the same-package callees interpreted in place (except the
-// opaque ones).
-//
-// It also works around a defect of flow/inline.go (reported; internal/flow is shared): when a
-// parameter is bound as an alias of the caller's path, the facts copied back at the callee's exit
-// get the *parameter object* merged into the dependencies of the caller-named fact (transfer()
-// merges d.vars into deps[nk]). deps is global to the engine, so the next state that enters the
-// same callee has these caller-named facts killed by the `KillVar(s, po)` that precedes the
-// binding — before transfer() could copy them to the parameter's name. Effect: from the second
-// entering state on, the callee is interpreted without what the caller knew about the arguments
-// (e.g. `return h(flagA, flagB)` explores flagA = true although the caller knows it is false).
-// Work-around: OnCall (which the engine fires for the inlined call before the binding) saves the
-// facts that mention an alias-bound argument as event facts (never killed); OnBlock at the
-// callee's entry block restores them under both names if they are gone.
+// opaque ones). (It used to carry a work-around for a defect of flow/inline.go that has been
+// repaired in the engine; the work-around mirrored facts across the call and could resurrect
+// facts about other parameters, so it is gone.)
 func muxAnalyzeInl(c *core.Ctx, f *flow.Func, conf flow.Config, opaque ...types.Object) *flow.Result {
-	inl := inlineSamePkg(f, opaque...)
-	conf.Inline = inl
-	onCall, onBlock := conf.OnCall, conf.OnBlock
-	const pre = "ev:inl@"
-	clear := func(st *flow.State) {
-		for _, fact := range st.Facts() {
-			if strings.HasPrefix(fact, pre) {
-				st.Set(fact[:len(fact)-2], flow.Unknown)
-			}
-		}
-	}
-	conf.OnCall = func(st *flow.State, call *ast.CallExpr, callee types.Object, deferred bool) {
-		if onCall != nil {
-			onCall(st, call, callee, deferred)
-		}
-		clear(st)
-		fo, ok := callee.(*types.Func)
-		if !ok || deferred || call.Ellipsis.IsValid() {
-			return
-		}
-		g := inl(call, fo)
-		if g == nil {
-			return
-		}
-		pairs := muxAliasPairs(f, call, g)
-		if len(pairs) == 0 {
-			return
-		}
-		tag := pre + sprintf("%d:", g.Body.Pos())
-		for _, fact := range st.Facts() {
-			k, v := fact[:len(fact)-2], flow.True
-			if fact[len(fact)-1] == 'F' {
-				v = flow.False
-			}
-			if strings.HasPrefix(k, "ev:") || strings.HasPrefix(k, "engine:") {
-				continue
-			}
-			nk, changed := k, false
-			for _, p := range pairs {
-				if r, ok := muxReplaceTok(nk, p[0], p[1]); ok {
-					nk, changed = r, true
-				}
-			}
-			if changed {
-				st.Set(tag+k+"\x00"+muxCanonEqKey(nk), v)
-			}
-		}
-	}
-	conf.OnBlock = func(st *flow.State, b *cfg.Block) {
-		if b.Index == 0 && b.Stmt != nil {
-			tag := pre + sprintf("%d:", b.Stmt.Pos())
-			for _, fact := range st.Facts() {
-				if !strings.HasPrefix(fact, tag) {
-					continue
-				}
-				key, v := fact[:len(fact)-2], flow.True
-				if fact[len(fact)-1] == 'F' {
-					v = flow.False
-				}
-				st.Set(key, flow.Unknown)
-				ks := strings.SplitN(key[len(tag):], "\x00", 2)
-				if len(ks) != 2 {
-					continue
-				}
-				for _, k := range ks {
-					if st.Get(k) == flow.Unknown {
-						st.Set(k, v)
-					}
-				}
-			}
-		}
-		if onBlock != nil {
-			onBlock(st, b)
-		}
-	}
+	conf.Inline = inlineSamePkg(f, opaque...)
 	return analyze(c, f, conf)
 }
 
-// muxAliasPairs lists (argument rendering, parameter rendering) for the receiver / parameters the
-// engine binds as aliases: the operand is an identifier or selector chain and the callee does not
-// assign the parameter (mirrors flow/inline.go binds()).
-func muxAliasPairs(f *flow.Func, call *ast.CallExpr, g *flow.Func) [][2]string {
-	fd, ok := g.Node.(*ast.FuncDecl)
-	if !ok {
-		return nil
-	}
-	var out [][2]string
-	add := func(p *ast.Ident, a ast.Expr) {
-		if p == nil || p.Name == "_" || a == nil || !muxStableOperand(a) {
-			return
-		}
-		o := f.Info.Defs[p]
-		if o == nil || muxAssignedIn(f.Info, g.Body, o) {
-			return
-		}
-		from, to := f.Render(a), f.Render(p)
-		if from != to && from != "" {
-			out = append(out, [2]string{from, to})
+// muxWrapperSound checks a nil-safe wrapper around filter.Allow / chain.Allow (allowIP,
+// guard.allowsSelf, guard.allowsChain): every exit returns the verdict of the wrapped call (or of
+// another wrapper already accepted), true only with the filter known nil or the verdict true, false
+// only with the verdict false.
+func muxWrapperSound(c *core.Ctx, g *flow.Func, kind map[types.Object]string) bool {
+	var inner []*ast.CallExpr
+	for _, call := range calls(g.Body, false) {
+		switch {
+		case calleeIs(g, call, "(*pkg/util/ipfilter.IPFilter).Allow"), calleeIs(g, call, "(*pkg/util/ipfilter.IPFilters).Allow"):
+			inner = append(inner, call)
+		default:
+			if fo, ok := g.Callee(call).(*types.Func); ok && (kind[fo.Origin()] == "allow" || kind[fo.Origin()] == "chain") && fo.Origin() != muxFuncObj(g) {
+				inner = append(inner, call)
+			}
 		}
 	}
-	if fd.Recv != nil && len(fd.Recv.List) == 1 && len(fd.Recv.List[0].Names) == 1 {
-		if sel, ok := ast.Unparen(call.Fun).(*ast.SelectorExpr); ok {
-			add(fd.Recv.List[0].Names[0], sel.X)
-		}
+	if len(inner) != 1 {
+		return false
 	}
-	i := 0
-	for _, fld := range fd.Type.Params.List {
-		if len(fld.Names) == 0 {
-			i++
+	verdict := inner[0]
+	var opaque []types.Object
+	if fo, ok := g.Callee(verdict).(*types.Func); ok {
+		opaque = append(opaque, fo.Origin())
+	}
+	res, err := flow.Analyze(g, flow.Config{NoHavoc: true, Inline: inlineSamePkg(g, opaque...)})
+	if err != nil || res == nil {
+		return false
+	}
+	vf := newMuxFlow([]*flow.Func{g})
+	k := g.CallKey(verdict)
+	nilKnown := func(st *flow.State) bool {
+		if sel, ok := ast.Unparen(verdict.Fun).(*ast.SelectorExpr); ok && g.Info.Selections[sel] != nil && st.Is(g.NilKey(sel.X), flow.True) {
+			return true
+		}
+		for _, a := range verdict.Args {
+			if tv, ok := g.Info.Types[a]; ok && muxRefType(tv.Type) && st.Is(g.NilKey(a), flow.True) {
+				return true
+			}
+		}
+		return false
+	}
+	n := 0
+	for _, ex := range res.Exits {
+		if ex.Kind != flow.ExitReturn {
 			continue
 		}
-		for _, nm := range fld.Names {
-			if i < len(call.Args) {
-				add(nm, call.Args[i])
-			}
-			i++
+		r := muxRetExpr(g, vf, ex)
+		if r == nil {
+			return false
+		}
+		n++
+		if ast.Unparen(r) == ast.Expr(verdict) {
+			continue
+		}
+		val, known := false, false
+		if tv, ok := g.Info.Types[r]; ok && tv.Value != nil {
+			val, known = tv.Value.ExactString() == "true", true
+		} else if id := muxIdentOf(r); id != nil && ex.State.Get(g.VarKey(id)) != flow.Unknown {
+			val, known = ex.State.Is(g.VarKey(id), flow.True), true
+		}
+		switch {
+		case !known:
+			return false
+		case val && !(nilKnown(ex.State) || ex.State.Is(k, flow.True)):
+			return false
+		case !val && !ex.State.Is(k, flow.False):
+			return false
 		}
 	}
-	return out
-}
-
-func muxStableOperand(x ast.Expr) bool {
-	switch t := ast.Unparen(x).(type) {
-	case *ast.Ident:
-		return t.Name != "_" && t.Name != "nil"
-	case *ast.SelectorExpr:
-		return muxStableOperand(t.X)
-	}
-	return false
-}
-
-// muxAssignedIn: variable o is assigned, inc/dec'ed, a range variable or has its address taken in body.
-func muxAssignedIn(info *types.Info, body ast.Node, o types.Object) bool {
-	is := func(x ast.Expr) bool {
-		id, ok := ast.Unparen(x).(*ast.Ident)
-		return ok && (info.Uses[id] == o || info.Defs[id] == o)
-	}
-	found := false
-	ast.Inspect(body, func(n ast.Node) bool {
-		switch s := n.(type) {
-		case *ast.AssignStmt:
-			for _, l := range s.Lhs {
-				if is(l) {
-					found = true
-				}
-			}
-		case *ast.IncDecStmt:
-			if is(s.X) {
-				found = true
-			}
-		case *ast.RangeStmt:
-			if (s.Key != nil && is(s.Key)) || (s.Value != nil && is(s.Value)) {
-				found = true
-			}
-		case *ast.UnaryExpr:
-			if s.Op == token.AND {
-				x := s.X
-				for {
-					switch t := ast.Unparen(x).(type) {
-					case *ast.SelectorExpr:
-						x = t.X
-						continue
-					case *ast.IndexExpr:
-						x = t.X
-						continue
-					}
-					break
-				}
-				if is(x) {
-					found = true
-				}
-			}
-		}
-		return !found
-	})
-	return found
-}
-
-func muxIdentByte(c byte) bool {
-	return c == '_' || (c >= '0' && c <= '9') || (c >= 'a' && c <= 'z') || (c >= 'A' && c <= 'Z') || c >= 0x80
-}
-
-// muxReplaceTok mirrors flow.replaceToken: occurrences of tok in s that are not part of a longer
-// identifier / position.
-func muxReplaceTok(s, tok, repl string) (string, bool) {
-	var sb strings.Builder
-	changed := false
-	i := 0
-	for i < len(s) {
-		j := strings.Index(s[i:], tok)
-		if j < 0 {
-			break
-		}
-		j += i
-		end := j + len(tok)
-		okBefore := j == 0 || !muxIdentByte(s[j-1])
-		okAfter := end == len(s) || !(s[end] >= '0' && s[end] <= '9')
-		if last := tok[len(tok)-1]; !(last >= '0' && last <= '9') && end < len(s) && muxIdentByte(s[end]) {
-			okAfter = false
-		}
-		if okBefore && okAfter {
-			sb.WriteString(s[i:j])
-			sb.WriteString(repl)
-			changed = true
-		} else {
-			sb.WriteString(s[i:end])
-		}
-		i = end
-	}
-	sb.WriteString(s[i:])
-	return sb.String(), changed
-}
-
-// muxCanonEqKey mirrors flow.canonEq: operand order of `eq:a==b` keys between two expressions.
-func muxCanonEqKey(k string) string {
-	if !strings.HasPrefix(k, "eq:") {
-		return k
-	}
-	i := strings.LastIndex(k, "==")
-	if i < 0 {
-		return k
-	}
-	a, b := k[3:i], k[i+2:]
-	if b == "" {
-		return k
-	}
-	if c := b[0]; c == '"' || (c >= '0' && c <= '9') || c == '-' || c == '@' || b == "true" || b == "false" {
-		return k
-	}
-	if b < a {
-		a, b = b, a
-	}
-	return "eq:" + a + "==" + b
+	return n > 0
 }
